@@ -1,6 +1,6 @@
 import Gpc.Proofs.FloatPlan
 /-! The specification's texts of finite values are well-formed numbers (`BodyWF`), so the plan theorem
-applies to every `%f` / `%F` conversion without a side condition. -/
+applies to every `%f %F %e %E %g %G` conversion without a side condition. -/
 namespace Gpc.Printf
 
 theorem digitChar_isDigit (d : Nat) (h : d < 10) :
@@ -151,5 +151,249 @@ theorem fixedText_wf (m : Nat) (e : Int) (prec : Nat) (alt : Bool) : BodyWF (fix
     cases alt
     · simpa using bodyWF_int _ (natDigits_isIntPart n)
     · simpa using bodyWF_fixed _ [] (natDigits_isIntPart n) (fun _ h => by simp at h)
+
+
+/-- exponent notation: one leading digit, optionally a point and fraction digits, then the exponent -/
+theorem bodyWF_exp_point (d E : UInt8) (fr tail : Bytes) (hd : 48 ≤ d.toNat ∧ d.toNat ≤ 57) (hf : IsDigits fr)
+    (hE : E = 101 ∨ E = 69) : BodyWF (d :: 46 :: fr ++ E :: tail) := by
+  have hmant : ∀ b ∈ d :: 46 :: fr, decide (b ≠ 101 ∧ b ≠ 69) = true := fun b hb => by
+    simp only [decide_eq_true_eq]
+    rcases List.mem_cons.mp hb with hb | hb
+    · subst hb; exact ⟨digit_ne b hd 101 (by decide), digit_ne b hd 69 (by decide)⟩
+    · rcases List.mem_cons.mp hb with hb | hb
+      · subst hb; decide
+      · have := hf b hb
+        exact ⟨digit_ne b this 101 (by decide), digit_ne b this 69 (by decide)⟩
+  have hEstop : decide (E ≠ 101 ∧ E ≠ 69) = false := by rcases hE with h | h <;> subst h <;> decide
+  have hnodot : ∀ b ∈ [d], decide (b ≠ 46) = true := fun b hb => by
+    simp only [List.mem_singleton] at hb; subst hb
+    simp only [decide_eq_true_eq]; exact digit_ne b hd 46 (by decide)
+  unfold BodyWF
+  simp only
+  rw [takeWhile_append_stop _ tail E _ hmant hEstop, dropWhile_append_stop _ tail E _ hmant hEstop]
+  have e1 : (d :: 46 :: fr) = [d] ++ 46 :: fr := rfl
+  rw [e1, takeWhile_append_stop [d] fr 46 _ hnodot (by decide), dropWhile_append_stop [d] fr 46 _ hnodot (by decide)]
+  refine ⟨by simpa using hf, ?_⟩
+  rw [if_neg (by simp)]
+  exact ⟨fun b hb => by simp only [List.mem_singleton] at hb; subst hb; exact hd, rfl⟩
+
+theorem bodyWF_exp_nopoint (d E : UInt8) (tail : Bytes) (hd : 48 ≤ d.toNat ∧ d.toNat ≤ 57)
+    (hE : E = 101 ∨ E = 69) : BodyWF (d :: E :: tail) := by
+  have hmant : ∀ b ∈ [d], decide (b ≠ 101 ∧ b ≠ 69) = true := fun b hb => by
+    simp only [List.mem_singleton] at hb; subst hb
+    simp only [decide_eq_true_eq]
+    exact ⟨digit_ne b hd 101 (by decide), digit_ne b hd 69 (by decide)⟩
+  have hEstop : decide (E ≠ 101 ∧ E ≠ 69) = false := by rcases hE with h | h <;> subst h <;> decide
+  have hnodot : ∀ b ∈ [d], decide (b ≠ 46) = true := fun b hb => by
+    simp only [List.mem_singleton] at hb; subst hb
+    simp only [decide_eq_true_eq]; exact digit_ne b hd 46 (by decide)
+  unfold BodyWF
+  simp only
+  have e1 : d :: E :: tail = [d] ++ E :: tail := rfl
+  rw [e1, takeWhile_append_stop _ tail E _ hmant hEstop, dropWhile_append_stop _ tail E _ hmant hEstop,
+    takeWhile_all [d] _ hnodot, dropWhile_all [d] _ hnodot]
+  refine ⟨fun b hb => by simp at hb, ?_⟩
+  rw [if_neg (by simp)]
+  exact ⟨fun b hb => by simp only [List.mem_singleton] at hb; subst hb; exact hd, rfl⟩
+
+/-- **`%e` / `%E` texts are well-formed**, for any non-empty digit string -/
+theorem expText_wf (ds : Bytes) (x : Int) (alt upper : Bool) (hd : IsDigits ds) (hne : ds ≠ []) :
+    BodyWF (expText ds x alt upper) := by
+  unfold expText
+  simp only
+  have hE : (if upper = true then (69 : UInt8) else 101) = 101 ∨ (if upper = true then (69 : UInt8) else 101) = 69 := by
+    cases upper <;> simp
+  generalize (if upper = true then (69 : UInt8) else 101) = E at hE
+  match ds, hd, hne with
+  | [d], hd, _ =>
+    have hd0 := hd d (by simp)
+    cases alt
+    · simpa using bodyWF_exp_nopoint d E _ hd0 hE
+    · simpa using bodyWF_exp_point d E [] _ hd0 (fun _ h => by simp at h) hE
+  | d :: c :: r, hd, _ =>
+    have hd0 := hd d (by simp)
+    simpa using bodyWF_exp_point d E (c :: r) _ hd0 (fun b hb => hd b (by simp [hb])) hE
+
+theorem expParts_digits (m : Nat) (e : Int) (prec : Nat) :
+    IsDigits (expParts m e prec).1 ∧ (expParts m e prec).1 ≠ [] := by
+  unfold expParts
+  simp only
+  split
+  · exact ⟨isDigits_zeros _, by simp⟩
+  · split
+    · exact ⟨natDigits_isDigits _, natDigits_ne_nil _ _ _⟩
+    · exact ⟨natDigits_isDigits _, natDigits_ne_nil _ _ _⟩
+
+theorem stripZeros_subset (s : Bytes) : ∀ b ∈ stripZeros s, b ∈ s := by
+  intro b hb
+  unfold stripZeros at hb
+  have := (List.dropWhile_sublist (fun (x : UInt8) => decide (x = 48))).subset (List.mem_reverse.mp hb)
+  exact List.mem_reverse.mp this
+
+theorem stripZeros_isDigits {s : Bytes} (h : IsDigits s) : IsDigits (stripZeros s) :=
+  fun b hb => h b (stripZeros_subset s b hb)
+
+theorem dropWhile_append_stop' (a t : Bytes) (c : UInt8) (p : UInt8 → Bool) (hc : p c = false) :
+    (a ++ c :: t).dropWhile p = a.dropWhile p ++ c :: t := by
+  induction a with
+  | nil => simp [hc]
+  | cons x a ih =>
+    by_cases hx : p x
+    · rw [List.cons_append, List.dropWhile_cons_of_pos hx, List.dropWhile_cons_of_pos hx, ih]
+    · rw [List.cons_append, List.dropWhile_cons_of_neg hx, List.dropWhile_cons_of_neg hx, List.cons_append]
+
+/-- trailing zeros are removed up to the point, never across it -/
+theorem stripZeros_point (ip fr : Bytes) : stripZeros (ip ++ 46 :: fr) = ip ++ 46 :: stripZeros fr := by
+  unfold stripZeros
+  rw [List.reverse_append, List.reverse_cons, List.append_assoc, List.singleton_append,
+    dropWhile_append_stop' _ _ 46 _ (by decide)]
+  simp
+
+theorem stripZeros_getLast (s : Bytes) : (stripZeros s).getLast? ≠ some 48 := by
+  unfold stripZeros
+  rw [List.getLast?_reverse]
+  intro h
+  cases hd : s.reverse.dropWhile (· = 48) with
+  | nil => rw [hd] at h; simp at h
+  | cons c t =>
+    have := dropWhile_head_not _ _ c t hd
+    rw [hd] at h
+    simp at h this
+    exact this h
+
+/-- the shape of fixed notation: an integer part, optionally a point and fraction digits -/
+theorem fixedText_shape (m : Nat) (e : Int) (prec : Nat) (alt : Bool) :
+    ∃ ip fr, IsIntPart ip ∧ IsDigits fr ∧
+      (fixedText m e prec alt = ip ∨ fixedText m e prec alt = ip ++ 46 :: fr) := by
+  unfold fixedText
+  simp only
+  generalize scaled m e ↑prec = n
+  by_cases hp : prec > 0
+  · rw [if_pos hp]
+    generalize hds : List.replicate (prec + 1 - (natDigits 10 false n).length) 48 ++ natDigits 10 false n = ds
+    have hdig : IsDigits ds := hds ▸ isDigits_append (isDigits_zeros _) (natDigits_isDigits n)
+    have hlen : ds.length = (prec + 1 - (natDigits 10 false n).length) + (natDigits 10 false n).length := by
+      rw [← hds, List.length_append, List.length_replicate]
+    rw [List.append_assoc, List.singleton_append]
+    refine ⟨_, _, ?_, hdig.drop _, Or.inr rfl⟩
+    refine ⟨hdig.take _, ?_, ?_⟩
+    · intro e0
+      have := congrArg List.length e0
+      simp only [List.length_take, List.length_nil] at this
+      omega
+    · by_cases hk : ds.length - prec = 1
+      · left; simp only [List.length_take]; omega
+      · right
+        have hlong : prec + 1 < (natDigits 10 false n).length := by omega
+        have hz : prec + 1 - (natDigits 10 false n).length = 0 := by omega
+        rw [hz] at hds
+        simp only [List.replicate_zero, List.nil_append] at hds
+        have hn : 0 < n := by
+          rcases Nat.eq_zero_or_pos n with h0 | h0
+          · subst h0; rw [natDigits_zero] at hlong; simp at hlong
+          · exact h0
+        have hh := natDigits_head 10 false (by omega) (by omega) n hn
+        rw [hds] at hh
+        obtain ⟨k, hk'⟩ : ∃ k, ds.length - prec = k + 1 := ⟨ds.length - prec - 1, by omega⟩
+        rw [hk']
+        cases ds with
+        | nil => simp at hlen; omega
+        | cons a t => simpa using hh
+  · rw [if_neg hp]
+    cases alt
+    · exact ⟨_, [], natDigits_isIntPart n, fun _ h => by simp at h, Or.inl (by simp)⟩
+    · exact ⟨_, [], natDigits_isIntPart n, fun _ h => by simp at h, Or.inr (by simp)⟩
+
+def gStrip (ds : Bytes) : Bytes := match ds with | [] => [] | d :: r => d :: stripZeros r
+
+theorem gBody_wf (m : Nat) (e : Int) (P : Nat) (alt upper : Bool) : BodyWF (
+    if -4 ≤ (expParts m e (P - 1)).snd ∧ (expParts m e (P - 1)).snd < (P : Int) then
+      if ¬alt = true ∧ (fixedText m e ((P : Int) - 1 - (expParts m e (P - 1)).snd).toNat alt).contains 46 = true then
+        if (stripZeros (fixedText m e ((P : Int) - 1 - (expParts m e (P - 1)).snd).toNat alt)).getLast? = some 46 then
+          (stripZeros (fixedText m e ((P : Int) - 1 - (expParts m e (P - 1)).snd).toNat alt)).dropLast
+        else stripZeros (fixedText m e ((P : Int) - 1 - (expParts m e (P - 1)).snd).toNat alt)
+      else fixedText m e ((P : Int) - 1 - (expParts m e (P - 1)).snd).toNat alt
+    else expText (if alt = true then (expParts m e (P - 1)).fst else gStrip (expParts m e (P - 1)).fst)
+      (expParts m e (P - 1)).snd alt upper) := by
+  have hd := expParts_digits m e (P - 1)
+  generalize expParts m e (P - 1) = r at hd ⊢
+  obtain ⟨ds, x⟩ := r
+  simp only at hd ⊢
+  split
+  · generalize ((P : Int) - 1 - x).toNat = fp
+    obtain ⟨ip, fr, hi, hf, hs⟩ := fixedText_shape m e fp alt
+    split
+    · rename_i hc
+      rcases hs with hs | hs
+      · exfalso
+        rw [hs] at hc
+        have : (46 : UInt8) ∈ ip := List.contains_iff_mem.mp hc.2
+        exact digit_ne 46 (hi.1 46 this) 46 (by decide) rfl
+      · rw [hs, stripZeros_point]
+        cases hfr : stripZeros fr with
+        | nil =>
+          have : (ip ++ [46]).getLast? = some 46 := by simp
+          rw [if_pos this]
+          simpa using bodyWF_int ip hi
+        | cons c t =>
+          have hcd : IsDigits (c :: t) := hfr ▸ stripZeros_isDigits hf
+          have hlast : (ip ++ 46 :: c :: t).getLast? ≠ some 46 := by
+            rw [List.getLast?_append]
+            simp only [List.getLast?_cons_cons]
+            intro h46
+            have hmem : (46 : UInt8) ∈ c :: t := by
+              cases hl : (c :: t).getLast? with
+              | none => simp at hl
+              | some z =>
+                rw [hl] at h46
+                simp at h46
+                subst h46
+                exact List.mem_of_getLast? hl
+            exact digit_ne 46 (hcd 46 hmem) 46 (by decide) rfl
+          rw [if_neg hlast]
+          exact bodyWF_fixed ip (c :: t) hi hcd
+    · exact fixedText_wf m e fp alt
+  · apply expText_wf
+    · cases alt
+      · match ds, hd with
+        | [], hd => exact absurd rfl hd.2
+        | d :: r, hd =>
+          simp only [Bool.false_eq_true, if_false, gStrip]
+          intro b hb
+          rcases List.mem_cons.mp hb with hb | hb
+          · subst hb; exact hd.1 b (by simp)
+          · exact hd.1 b (by simp [stripZeros_subset r b hb])
+      · simpa using hd.1
+    · cases alt
+      · match ds, hd with
+        | [], hd => exact absurd rfl hd.2
+        | d :: r, hd => simp [gStrip]
+      · simpa using hd.2
+
+/-- **`%g` / `%G` texts are well-formed**: the fixed style with trailing zeros (and then a bare point)
+removed, or the exponent style with the fraction's trailing zeros removed -/
+theorem gText_wf (m : Nat) (e : Int) (prec : Option Nat) (alt upper : Bool) : BodyWF (gText m e prec alt upper) := by
+  unfold gText
+  simp only
+  match prec with
+  | none => exact gBody_wf m e 6 alt upper
+  | some 0 => exact gBody_wf m e 1 alt upper
+  | some (p + 1) => exact gBody_wf m e (p + 1) alt upper
+
+/-- **every finite value's text, under every conversion, precision and flag set, is well-formed** -/
+theorem floatParts_wf (s : Spec) (bits : Nat) (hfin : (floatParts s bits).2.2 = false) :
+    BodyWF (floatParts s bits).2.1 := by
+  unfold floatParts at hfin ⊢
+  simp only at hfin ⊢
+  cases hsp : (decode bits).special with
+  | some nan => rw [hsp] at hfin; simp at hfin
+  | none =>
+    simp only
+    split
+    · exact fixedText_wf _ _ _ _
+    · split
+      · have hd := expParts_digits (decode bits).m (decode bits).e (s.prec.getD 6)
+        exact expText_wf _ _ _ _ hd.1 hd.2
+      · exact gText_wf _ _ _ _ _
 
 end Gpc.Printf
